@@ -110,6 +110,7 @@ struct Prep {
     seed: u64,
     // position snapshot for the C15 oracle
     pos_snapshot: Vec<(usize, usize)>, // (chunk_start, pos) of every chunk up to the then-current one
+    dyn_: bool,
 }
 
 struct ScopeSnap {
